@@ -119,8 +119,33 @@ class Prov:
         return [x.arg for x in getattr(a, 'posonlyargs', []) + a.args + a.kwonlyargs] + \
                ([a.vararg.arg] if a.vararg else []) + ([a.kwarg.arg] if a.kwarg else [])
 
+    def _only_called(self, fn, name):
+        """Every read of the local / parameter `name` in `fn` is as the callee of a call."""
+        callee_ids = {id(n.func) for n in walk_no_nested(fn) if isinstance(n, ast.Call)}
+        return all(id(n) in callee_ids for n in walk_no_nested(fn) if isinstance(n, ast.Name) and n.id == name and isinstance(n.ctx, ast.Load))
+
+    def _ref_escapes(self, ref, q):
+        """A function name used as a value escapes unless the dataflow can follow it: a local alias that is only ever called, or an
+        argument for a parameter (of a repo function) that is only ever called."""
+        par = getattr(ref, '_parent', None)
+        fn = self.cg.funcs[q]
+        if isinstance(par, ast.Assign) and par.value is ref and len(par.targets) == 1 and isinstance(par.targets[0], ast.Name):
+            return not self._only_called(fn, par.targets[0].id)
+        call = par._parent if isinstance(par, ast.keyword) else par
+        if isinstance(call, ast.Call) and call.func is not ref:
+            callees = self.cg.callees(q, call)
+            if not callees or (dotted(call.func) in self.facts.classes):
+                return True
+            for c in callees:
+                for p, args in self.bind_call(c, call).items():
+                    if any(a is ref for a in args) and not self._only_called(self.cg.funcs[c], p):
+                        return True
+            return False
+        return True
+
     def value_refs(self):
-        """{qualified function name: [referencing qual]} for functions whose *name is used as a value* (not as the callee of a call)."""
+        """{qualified function name: [referencing qual]} for functions whose *name is used as a value* in a way the dataflow cannot
+        follow (stored in a table, returned, passed to unknown code): such a function may be called from anywhere."""
         if self._value_refs is None:
             refs = {}
             for q, fn in self.cg.funcs.items():
@@ -132,7 +157,7 @@ class Prov:
                 for n in walk_no_nested(fn):
                     if isinstance(n, ast.Name) and isinstance(n.ctx, ast.Load) and id(n) not in callee_names:
                         tgt = locals_.get(n.id) or (n.id if n.id in self.facts.funcs else None)
-                        if tgt:
+                        if tgt and self._ref_escapes(n, q):
                             refs.setdefault(tgt, []).append(q)
             # module level: tables of functions, partials
             for st in self.facts.tree.body:
@@ -158,7 +183,7 @@ class Prov:
             locals_ = self.cg.local_defs(q)
             for n in walk_no_nested(fn):
                 if isinstance(n, ast.Call):
-                    todo.extend(self.cg.callees(q, n))
+                    todo.extend(self.callees(q, n))
                 if isinstance(n, ast.Name) and isinstance(n.ctx, ast.Load):
                     if n.id in locals_:
                         todo.append(locals_[n.id])
@@ -400,12 +425,66 @@ class Prov:
                 defaults[x.arg] = d
         return defaults.get(name)
 
-    def call_sites_of(self, qual):
+    def function_values(self, node, qual, _depth=0):
+        """Qualified names of the repo functions an expression may denote (a function name, a local alias of one, a parameter
+        that receives one at some call site), or [] when it is not (only) a function value."""
+        if _depth > 4 or not isinstance(node, ast.Name) or qual is None:
+            return []
+        locals_ = self.cg.local_defs(qual)
+        out = []
+        for how, v in self.reaching(qual, node):
+            if how[0] == 'func':
+                q = locals_.get(node.id)
+                if q:
+                    out.append(q)
+            elif how[0] == 'expr':
+                r = self.function_values(v, qual, _depth + 1)
+                if not r:
+                    return []
+                out += r
+            elif how[0] == 'free':
+                if node.id in locals_:
+                    out.append(locals_[node.id])
+                elif node.id in self.facts.funcs:
+                    out.append(node.id)
+                else:
+                    return []
+            elif how[0] == 'param':
+                for cq, call in self.call_sites_of(qual, direct_only=True):
+                    for arg in self.bind_call(qual, call).get(node.id, []):
+                        out += self.function_values(arg, cq, _depth + 1)
+            else:
+                return []
+        return sorted(set(out))
+
+    def callees(self, qual, call):
+        """Repo functions a call may reach: the call graph's resolution, plus calls through a local alias of a function or
+        through a function-valued parameter."""
+        out = list(self.cg.callees(qual, call)) if qual is not None else []
+        if not out and qual is not None and isinstance(call.func, ast.Name):
+            key = (qual, id(call))
+            memo = self.__dict__.setdefault('_callee_memo', {})
+            if key not in memo:
+                memo[key] = []           # cut cycles
+                memo[key] = self.function_values(call.func, qual)
+            out = memo[key]
+        return out
+
+    def call_sites_of(self, qual, direct_only=False):
         """[(caller qual, Call)]"""
         out = []
         for cfn, call in self.cg.call_sites().get(qual, []):
             out.append((self.qual_of[id(cfn)], call))
-        return out
+        if direct_only:
+            return out
+        if '_indirect' not in self.__dict__:
+            self._indirect = {}
+            for cq, cfn in self.cg.funcs.items():
+                for n in walk_no_nested(cfn):
+                    if isinstance(n, ast.Call) and isinstance(n.func, ast.Name) and not self.cg.callees(cq, n):
+                        for q in self.callees(cq, n):
+                            self._indirect.setdefault(q, []).append((cq, n))
+        return out + self._indirect.get(qual, [])
 
     def attr_stores(self):
         """{attribute name: [(qual, stored value node)]} over the whole program (`x.a = v`, `setattr(x, 'a', v)`)."""
@@ -552,23 +631,25 @@ class Prov:
         return out
 
     def growth_sites(self, fn, name):
-        """[element / sub-list expression] added in place to the local `name` of `fn`: x.append(v), x.add(v), x.insert(i, v),
-        x.extend(w), x.update(w)."""
+        """[('elem' | 'list', expression)] added in place to the local `name` of `fn`: x.append(v), x.add(v), x.insert(i, v) add
+        one element; x.extend(w), x.update(w) add the elements of w."""
         idx = self.__dict__.setdefault('_growth', {})
         if id(fn) not in idx:
             tab = {}
             for n in walk_no_nested(fn):
                 if isinstance(n, ast.Call) and isinstance(n.func, ast.Attribute) and isinstance(n.func.value, ast.Name):
-                    if n.func.attr in ('append', 'add', 'extend', 'update') and n.args:
-                        tab.setdefault(n.func.value.id, []).append(n.args[0])
+                    if n.func.attr in ('append', 'add') and n.args:
+                        tab.setdefault(n.func.value.id, []).append(('elem', n.args[0]))
+                    elif n.func.attr in ('extend', 'update') and n.args:
+                        tab.setdefault(n.func.value.id, []).append(('list', n.args[0]))
                     elif n.func.attr == 'insert' and len(n.args) > 1:
-                        tab.setdefault(n.func.value.id, []).append(n.args[1])
+                        tab.setdefault(n.func.value.id, []).append(('elem', n.args[1]))
             idx[id(fn)] = tab
         return idx[id(fn)].get(name, [])
 
     def _mutation_kinds(self, fn, name, qual):
         out = set()
-        for v in self.growth_sites(fn, name):
+        for _, v in self.growth_sites(fn, name):
             out |= self._kinds(v, qual)
         return out
 
@@ -609,7 +690,7 @@ class Prov:
         if isinstance(v, (ast.Tuple, ast.List)) and len(v.elts) == n and not starred and not any(isinstance(e, ast.Starred) for e in v.elts):
             return set(self._kinds(v.elts[i], qual))
         if isinstance(v, ast.Call) and qual is not None and not starred:
-            callees = self.cg.callees(qual, v)
+            callees = self.callees(qual, v)
             if callees:
                 out = set()
                 for c in callees:
@@ -715,17 +796,11 @@ class Prov:
                 return {'Unknown'}
             first = self._kinds(node.args[0], qual)
             out = set()
-            rest = set()
-            for a in node.args[1:]:
-                rest |= self._kinds(a, qual)
             for k in first:
                 if k in DIRKINDS or k == 'Resolved':
                     out.add('Resolved')
-                elif k == 'NoneK':
-                    continue
-                else:
-                    out.add(k)
-                    out |= rest - {'NoneK'}
+                elif k != 'NoneK':
+                    out.add(k)          # the result lies wherever its first component lies
             return out or {'NoneK'}
         if d in PASS_CALLS:
             if not node.args:
@@ -778,7 +853,7 @@ class Prov:
             if attr in ('items', 'values', 'keys'):
                 return set(self._kinds(node.func.value, qual))
         if qual is not None:
-            callees = self.cg.callees(qual, node)
+            callees = self.callees(qual, node)
             if callees:
                 if d in self.facts.classes:
                     return {'Unknown'}           # a freshly built object
@@ -850,7 +925,8 @@ class Prov:
     # -- absoluteness ------------------------------------------------------------------------------------------------------------
     def is_abs(self, node, qual, sources=None, _busy=None):
         """The value is definitely an absolute path, or a container whose elements all are (vacuously true for None / empty).
-        `sources` collects the leaf expressions that contribute elements / values."""
+        `sources` collects (expression, is absolute) for every *element source* of a container (list literal elements,
+        comprehension elements, arguments of append / add / insert) and for containers that could not be opened up."""
         busy = _busy if _busy is not None else set()
         key = (id(node), qual)
         if key in busy:
@@ -860,6 +936,12 @@ class Prov:
             return self._is_abs(node, qual, sources, busy)
         finally:
             busy.discard(key)
+
+    def _elem(self, v, qual, sources, busy):
+        ok = self.is_abs(v, qual, None, busy)
+        if sources is not None:
+            sources.append((v, ok))
+        return ok
 
     def _leaf(self, node, sources, ok):
         if sources is not None:
@@ -873,11 +955,11 @@ class Prov:
         if isinstance(node, ast.Constant):
             return self._leaf(node, sources, isinstance(node.value, str) and node.value.startswith('/'))
         if isinstance(node, (ast.List, ast.Tuple, ast.Set)):
-            return all([rec(e) for e in node.elts])
+            return all([rec(e.value) if isinstance(e, ast.Starred) else self._elem(e, qual, sources, busy) for e in node.elts])
         if isinstance(node, ast.Starred):
             return rec(node.value)
         if isinstance(node, (ast.ListComp, ast.SetComp, ast.GeneratorExp)):
-            return rec(node.elt)
+            return self._elem(node.elt, qual, sources, busy)
         if isinstance(node, ast.BoolOp):
             return all([rec(v) for v in node.values])
         if isinstance(node, ast.IfExp):
@@ -902,7 +984,7 @@ class Prov:
             if d in ('list', 'tuple', 'sorted', 'set', 'frozenset', 'reversed', 'copy.copy', 'copy.deepcopy') :
                 return rec(node.args[0]) if node.args else True
             if qual is not None:
-                callees = self.cg.callees(qual, node)
+                callees = self.callees(qual, node)
                 if callees and d not in self.facts.classes:
                     ok = True
                     for c in callees:
@@ -953,8 +1035,8 @@ class Prov:
                 else:
                     ok = self._leaf(node, sources, False)
             if not all(how[0] == 'free' for how, _ in defs):
-                for v in self.growth_sites(fn, node.id):
-                    ok = rec(v) and ok
+                for kind, v in self.growth_sites(fn, node.id):
+                    ok = (self._elem(v, qual, sources, busy) if kind == 'elem' else rec(v)) and ok
             return ok
         return self._leaf(node, sources, False)
 
